@@ -52,7 +52,7 @@ specs["C02"] = dict(prefixes=["C02.", "no-panic", "no-deadlock"], runs=[
   {"pkg": "root", "fn": "vfH_C02_ClearVsGet", "params": {"preempt": 5}, "tiers": T},
   {"pkg": "root", "fn": "vfH_C02_ClearVsGet", "params": {"preempt": 3, "writer": 1}, "tiers": QT},
   burst(Q, ops=2, menu=menu("set0", "set1", "get0", "del0"), maxcost=1, setbuf=2, sketch=1, pre=1),
-  burst(T, ops=3, menu=menu("set0", "set1", "get0", "del0"), maxcost=1, setbuf=2, sketch=1, pre=1),
+  burst(T, hashes=1, ops=3, menu=menu("set0", "set1", "get0", "del0"), maxcost=1, setbuf=2, sketch=1, pre=1),
   burst(QT, ops=2, menu=menu("set0", "get0", "clear"), maxcost=2, setbuf=2, pre=1),
   burst(T, ops=2, menu=menu("set0", "set1", "get0", "clear"), maxcost=1, setbuf=1, pre=1, sketch=1),
   dict(burst(T, ops=2, menu=menu("set0", "get0", "del0"), maxcost=1, setbuf=2, sketch=1), twin=True),
@@ -70,7 +70,7 @@ specs["C03"] = dict(prefixes=["C03.", "C09.fits", "no-panic"], runs=[
   {"pkg": "root", "fn": "vfH_Policy_Add", "params": {"residents": 7, "unit": 1}, "tiers": QT, "fallback": "cvc5-int,z3-new"},
   burst(T, ops=2, menu=menu("set1", "set2", "del0"), maxcost=2, setbuf=2, sketch=1, pre=2),
   burst(QT, ops=2, menu=menu("set0", "set1"), maxcost=1, setbuf=4, sketch=1, pre=1),
-  burst(T, ops=3, menu=menu("set0", "set1", "set2", "del0"), maxcost=2, setbuf=2, sketch=1, pre=1),
+  burst(T, hashes=1, ops=3, menu=menu("set0", "set1", "set2", "del0"), maxcost=2, setbuf=2, sketch=1, pre=1),
   burst(T, ops=2, menu=menu("set0", "set1", "set2", "heavy0"), maxcost=2, setbuf=2, sketch=1, pre=1),
  ], witnesses=["vfH_Policy_Add:end", "vfH_Policy_Ops:end", "vfH_Burst:end"],
  bounds=["one defaultPolicy.Add(key, cost) from an ARBITRARY policy state with 2..4 (quick: 3) resident keys, arbitrary costs in [0, 2^40], arbitrary MaxCost in (0, 2^40], arbitrary frequency estimates (tinyLFU.Estimate replaced by an uninterpreted function into [0,16]), every enumeration order of the sampling map (first enumeration by symmetry)",
@@ -84,8 +84,8 @@ specs["C04"] = dict(prefixes=["C04.", "no-panic", "no-deadlock"], runs=[
   burst(Q, ops=1, menu=menu("set0", "set1", "del0"), maxcost=1, setbuf=1, sketch=1, final=1, pre=1),
   burst(Q, ops=2, menu=menu("set0", "set1", "del0"), maxcost=1, setbuf=2, sketch=1, final=2, pre=1),
   burst(T, ops=2, menu=menu("set0", "set1", "del0"), maxcost=1, setbuf=1, sketch=1, final=1, pre=1),
-  burst(T, ops=3, menu=menu("set0", "set1", "del0"), maxcost=1, setbuf=2, sketch=1, final=2, pre=1),
-  burst(T, ops=3, menu=menu("set0", "set2", "get0", "wait"), maxcost=2, setbuf=2, sketch=1, final=2, pre=1),
+  burst(T, hashes=1, ops=3, menu=menu("set0", "set1", "del0"), maxcost=1, setbuf=2, sketch=1, final=2, pre=1),
+  burst(T, hashes=1, ops=3, menu=menu("set0", "set2", "get0", "wait"), maxcost=2, setbuf=2, sketch=1, final=2, pre=1),
   burst(T, ops=2, menu=menu("set0", "set1", "clear"), maxcost=1, setbuf=2, sketch=1, final=2),
   dict(burst(T, ops=2, menu=menu("set0", "set1"), maxcost=1, setbuf=1, final=1), twin=True),
   {"pkg": "root", "fn": "vfH_C04_ShouldUpdate", "tiers": QT},
@@ -140,7 +140,7 @@ specs["C13"] = dict(prefixes=["C13.", "no-panic", "no-deadlock"], runs=[
   burst(QT, ops=1, menu=menu("ttl0"), maxcost=2, setbuf=2, ttl=1, pre=0),
   burst(QT, ops=2, menu=menu("ttl0", "set1"), maxcost=2, setbuf=2, ttl=1, pre=0),
   burst(T, ops=2, menu=menu("ttl0", "set1", "heavy2"), maxcost=2, setbuf=2, ttl=1000000000, pre=1, sketch=1),
-  burst(T, ops=3, menu=menu("set0", "set1", "set2", "del0", "del1"), maxcost=2, setbuf=1, sketch=1, iter=1, pre=1),
+  burst(T, hashes=1, ops=3, menu=menu("set0", "set1", "set2", "del0", "del1"), maxcost=2, setbuf=1, sketch=1, iter=1, pre=1),
   burst(QT, ops=2, menu=menu("set0", "set1", "del0", "clear"), maxcost=1, setbuf=2, sketch=1, pre=1, iter=1),
   burst(Q, ops=1, menu=menu("set0", "set1", "del0"), maxcost=2, setbuf=2, pre=1, final=1),
   burst(T, ops=2, menu=menu("set0", "set1", "del0"), maxcost=2, setbuf=2, pre=1, final=1),
@@ -316,6 +316,8 @@ specs["C16"] = dict(prefixes=["C16.", "no-panic"], runs=[
 
 def main():
     for pid, s in specs.items():
+        if any(r.get("fn") == "vfH_Burst" and r.get("params", {}).get("hashes") == 1 for r in s["runs"]):
+            s["bounds"] = s["bounds"] + ["thorough-tier bursts of 3 calls use CONCRETE key hashes (three keys in shards 0/1: no data forks over shard, sketch and doorkeeper positions); bursts of 1..2 calls use symbolic hashes"]
         out = {"property": pid, "prefixes": s.get("prefixes", []), "runs": s["runs"], "witnesses": s.get("witnesses", []),
                "bounds": s["bounds"], "outside_bounds": s["outside"], "assumptions": s["assumptions"]}
         json.dump(out, open(os.path.join(ROOT, "checks", pid + ".json"), "w"), indent=1)
